@@ -197,7 +197,17 @@ def oracleHandle (args : List String) : String :=
   | hx :: _ =>
     let toks := Lex.lex (unhex hx)
     let gs := toks.toList.filterMap toG
-    let std := verdict stdStep "std:unclosed" gs true
+    -- a standard client ends a comment at the first "-->": an ordinary comment (or a bare "-->" in text) inside an Outlook
+    -- conditional ends that conditional early and turns the rest of it into live markup
+    let commentInCond := (toks.foldl (fun (acc : Bool × Bool) t =>
+      let (inMso, bad) := acc
+      match t with
+      | .msoOpen _ => (true, bad)
+      | .msoClose => (false, bad)
+      | .comment _ => (inMso, bad || inMso)
+      | .text s => (inMso, bad || (inMso && hasSub s "-->"))
+      | _ => acc) (false, false)).2
+    let std := if commentInCond then "std:comment-ends-conditional" else verdict stdStep "std:unclosed" gs true
     let mso := verdict msoStep "mso:unclosed" gs true
     -- visibility and sentinel order
     let (_, seen, hidden) := gs.foldl (fun (acc : Nat × Array Nat × Array Nat) g =>
